@@ -65,6 +65,27 @@ Section Sticky.
       cbn in Hc2. apply app_eq_nil in Hc2. destruct Hc2. apply Hb. assumption.
   Qed.
 
+  Lemma error_state_step_nomem fuel :
+    (1 <= fuel)%nat ->
+    c_next_prime nextDist maxGap kernel cut fuel {| ci := error_iter_nomem; ci_error := true |} =
+      Done ({| ci := error_iter; ci_error := true |}, PRIMESIEVE_ERROR).
+  Proof.
+    intros Hf. destruct fuel as [|f]; [lia|]. unfold c_next_prime, error_iter_nomem. cbn [ci it_i it_buf length Nat.ltb Nat.leb].
+    cbn [it_start it_hint get_data it_mem gen_next_loop d_gen updateNext d_incl d_stop d_dist].
+    unfold PRIMESIEVE_ERROR.
+    assert (E1 : (MAX64 <=? MAX64) && (MAX64 <? MAX64) = false) by (rewrite N.ltb_irrefl; apply andb_false_r).
+    rewrite E1.
+    assert (E2 : checkedAdd MAX64 (nextDist MAX64 0) = MAX64) by (apply checkedAdd_sat; lia).
+    rewrite E2. cbn [new_gen g_blocks g_top].
+    rewrite kernel_ok by lia.
+    assert (E3 : primes_between MAX64 MAX64 = []).
+    { apply primes_between_nil_iff. intros q Hq H1 H2. assert (q = MAX64) by lia. subst q. exact (not_prime_MAX64 Hq). }
+    rewrite E3. destruct (cut []) as [|b l] eqn:Ec.
+    - rewrite N.leb_refl. reflexivity.
+    - exfalso. destruct (cut_ok []) as [Hc2 Hne]. rewrite Ec in Hc2, Hne. apply Forall_cons_iff in Hne. destruct Hne as [Hb _].
+      cbn in Hc2. apply app_eq_nil in Hc2. destruct Hc2. apply Hb. assumption.
+  Qed.
+
   Theorem error_sticky fuel k :
     (1 <= fuel)%nat ->
     c_next_n nextDist maxGap kernel cut fuel k {| ci := error_iter; ci_error := true |} =
